@@ -73,8 +73,11 @@ Record cfg := {
 Definition tynames (o : obj) : list pystr :=
   match o with
   | Atom _ => [s2p "int"]
-  | Box k (Wrap _ _) _ =>
-      s2p "ImmutableMixin" :: match k with KList => [s2p "list"] | KDeque => [s2p "deque"] | KDict => [s2p "dict"] | _ => [] end
+  | Box k (Wrap g _) _ =>
+      (* "ImmutableMixin[immutable]": the pseudo name the generated tables use for the test
+         `isinstance(v, ImmutableMixin) and v._is_immutable()` *)
+      s2p "ImmutableMixin" :: (if g then [s2p "ImmutableMixin[immutable]"] else [])
+      ++ match k with KList => [s2p "list"] | KDeque => [s2p "deque"] | KDict => [s2p "dict"] | _ => [] end
   | Box KList NoWrap _ => [s2p "list"]
   | Box KDeque NoWrap _ => [s2p "deque"]
   | Box KDict NoWrap _ => [s2p "dict"]
